@@ -646,7 +646,7 @@ class Ref:
             key = vkey(op["value"])
             if key in rp.id_of_value:
                 new = rp.id_of_value[key]
-            elif how == "csv":
+            elif how in ("csv", "csobj"):
                 out["exc"] = {"cls": "InvalidStateValue", "value": op["value"]}
             else:
                 new = {"$invalid": op["value"]}
